@@ -35,7 +35,9 @@ def quantifier_value(sm, node, fname, st):
             c = sm.cond(node.args[0].elt, s2)
             flt = [sm.cond(x, s2) for x in g.ifs]
             if fname == "any":
-                return BoolV(And(*(flt + [c])))
+                # "some element satisfies C" is its own atom: it must not be confused with all(..) - only all(..) (and the
+                # loop form `for x: if not C(x): raise`) read as the condition on the one symbolic element
+                return BoolV(A(("ANY", show_f(And(*(flt + [c]))), vkey(d))))
             return BoolV(Or(*([Not(x) for x in flt] + [c])))
     return None
 
